@@ -41,6 +41,7 @@ class Gen:
         self.labels_defined = []
         self.posn = 0
         self.vars_in_scope = []  # macro variables usable as constants
+        self.in_macro = False
 
     # ---- values
     def uid(self):
@@ -212,7 +213,8 @@ class Gen:
         elif c < 0.8:
             inner = self.asg()
         elif c < 0.9 and self.c.ctrl_in_blocks:
-            inner = ("ctrl", self.r.choice(["return", "end", "hold"]))
+            # (`return` inside a macro is a jump out of the with-block: see jumps_in_with)
+            inner = ("ctrl", self.r.choice(["end", "hold"] if self.in_macro and not self.c.jumps_in_with else ["return", "end", "hold"]))
         elif c < 0.95 and self.c.labels and self.c.jumps_in_with:
             inner = ("jumpany",)
         elif inloop and self.c.ctrl_in_blocks and self.c.jumps_in_with:
@@ -357,7 +359,40 @@ class Gen:
                 hs.append(("for", i, self.r.choice(CTX_KINDS), tgt))
         return hs
 
-    def program(self, nroutines=None):
+    def gen_macros(self, n, prefix="mac", callable_extra=()):
+        """n macros with an acyclic call graph (macro i may call macros j > i and the extra ones);
+        labels are local to each macro. Returns list of (name, vars, body) in topological (caller first) order."""
+        specs = [(f"{prefix}_{i}", self.r.randint(0, 3)) for i in range(n)]
+        saved = (self.c.macros, self.c.macro_p, self.labels_defined, self.vars_in_scope)
+        out = []
+        for i, (name, nv) in enumerate(specs):
+            vars_ = [f"$p{i}_{k}" for k in range(nv)]
+            self.c.macros = specs[i + 1:] + list(callable_extra)
+            self.c.macro_p = 0.25 if self.c.macros else 0.0
+            self.labels_defined = []
+            self.vars_in_scope = vars_
+            self.in_macro = True
+            body = self.block(min(self.c.depth, 2), False, False, n=self.r.randint(1, 4), allow_term=False)
+            if self.c.ctrl_in_blocks and self.r.random() < 0.3:
+                body.append(("ctrl", "return"))
+            body = self.fix(body, list(self.labels_defined)) or [self.op()]
+            out.append((name, vars_, body))
+        self.c.macros, self.c.macro_p, self.labels_defined, self.vars_in_scope = saved
+        self.in_macro = False
+        return out, specs
+
+    def program(self, nroutines=None, nmacros=0):
+        macros = []
+        if nmacros:
+            macros, specs = self.gen_macros(nmacros)
+            self.c.macros = specs
+            self.c.macro_p = max(self.c.macro_p, 0.15)
+            self.r.shuffle(macros)
+        prog = self._program(nroutines)
+        prog["macros"] = macros
+        return prog
+
+    def _program(self, nroutines=None):
         nroutines = nroutines or self.r.randint(1, self.c.max_routines)
         hdrs = self.routine_headers(nroutines)
         bodies = []
